@@ -144,11 +144,11 @@ def run_k(tier, out, wd, prop="C04", only=None):
         g = core.Graph(r.tagged["EDGE"], init_views=r.tagged["INIT"])
         stats["states"] += r.distinct
         stats["transitions"] += g.n_edges
+        r.tagged.pop("EDGE", None)
         paths = g.covering_paths(extend=3, rng=rng)
         paths += g.random_walks(300 if tier == "quick" else 3000, 14 if tier == "quick" else 22, rng)
-        cases = [{"id": "%d.%d" % (ci, i), "cfg": {"kinds": kinds}, "acts": [norm_act(a) for a in p if a["k"] != "init"]}
-                 for i, p in enumerate(paths)]
-        results = rp.run_cases("h_runtime", "writetask", cases, wd, tag="wt%d" % ci, input_keys=INPUT_KEYS)
+        n_edges, n_paths = g.n_edges, len(paths)
+        del g
         nrem = max(k["Remotes"])
 
         def pv(case, result, k=k, nrem=nrem):
@@ -167,13 +167,26 @@ def run_k(tier, out, wd, prop="C04", only=None):
             return {"accepted": res["accepted"], "kf": res.get("kf", []),
                     "detail": "P (Trace_WriteTask) rejects the recorded execution at event %s: %s" % (m, json.dumps(ev[m]) if 0 <= m < len(ev) else None)}
 
-        st = rp.conformance(out, cases, results, INPUT_KEYS, pv, "WriteTask %s" % json.dumps({a: (sorted(b) if isinstance(b, set) else b) for a, b in k.items()}),
-                            max_validate=25)
+        # replay in chunks: the cases of a large graph (millions of calls) are never all in memory at once
+        CHUNK = 40000
+        st = dict(conform=0, drift=0, rejected=0, steps=0)
+        cases = []
+        for c0 in range(0, n_paths, CHUNK):
+            cases = [{"id": "%d.%d" % (ci, c0 + i), "cfg": {"kinds": kinds}, "acts": [norm_act(a) for a in p if a["k"] != "init"]}
+                     for i, p in enumerate(paths[c0:c0 + CHUNK])]
+            for j in range(c0, min(c0 + CHUNK, n_paths)):
+                paths[j] = None
+            results = rp.run_cases("h_runtime", "writetask", cases, wd, tag="wt%d_%d" % (ci, c0 // CHUNK), input_keys=INPUT_KEYS)
+            s1 = rp.conformance(out, cases, results, INPUT_KEYS, pv, "WriteTask %s" % json.dumps({a: (sorted(b) if isinstance(b, set) else b) for a, b in k.items()}),
+                                max_validate=25)
+            for key in st:
+                st[key] += s1[key]
+            del results
         stats["cases"] += st["conform"] + st["drift"]
         stats["steps"] += st["steps"]
         stats["drift"] += st["drift"]
         core.log("[K-WriteTask] %s: %d states %d edges; %d paths (%d calls): conform=%d drift=%d rejected=%d" % (
-            k["KindOf"] + "x%d" % len(k["Remotes"]), r.distinct, g.n_edges, len(cases), st["steps"], st["conform"], st["drift"], st["rejected"]))
+            k["KindOf"] + "x%d" % len(k["Remotes"]), r.distinct, n_edges, n_paths, st["steps"], st["conform"], st["drift"], st["rejected"]))
         if cases and not stats.get("sampled"):
             stats["sampled"] = 1
             out.sample({"writetask_calls_with_expected_results": cases[len(cases) // 2]["acts"][:8]})
